@@ -412,6 +412,8 @@ def units():
             Unit("get_dual_edge_lengths", U_ + ":get_dual_edge_lengths", lambda m=None: _mc().run_dual_edge_lengths(m), props=["C07"], timeout=300),
             Unit("tdgl.geometry helpers", "tdgl.geometry:ensure_unique, close_curve",
                  lambda m=None: __import__("checks.geometry_common", fromlist=["x"]).run_geometry(m, prefixes=("C07.",)), props=["C07", "C18"], timeout=300),
+            Unit("Device.make_mesh", "tdgl.device.device:Device.make_mesh / _create_dimensionless_mesh / points / edge_lengths / areas",
+                 lambda m=None: _mc().run_make_mesh(m, prefixes=("C07.", "C08.")), props=["C07", "C08"], timeout=300),
             Unit("Mesh.smooth", "tdgl.finite_volume.mesh:Mesh.smooth", lambda m=None: _mc().run_smooth(m), props=["C07", "C03"], timeout=300),
             Unit("Mesh.from_triangulation", "tdgl.finite_volume.mesh:Mesh.from_triangulation / Mesh.compute_voronoi_areas_polygons", lambda m=None: _mc().run_from_triangulation(m), props=["C07", "C14"], timeout=300),
             Unit("make_mesh postconditions [bounded]", "tdgl.device.device:Device.make_mesh (Triangle, qhull)", run_native_quick, props=["C07"], timeout=600, kind="bounded")]
